@@ -1331,3 +1331,81 @@ B("C12-meta-id-mismatch", "C12", "C12:R-C12.4:db::Database::keyspace:one-fresh-i
 B("C12-drop-deletes-live-keyspace", "C12", "C12:R-C12.5:<keyspace::KeyspaceInner as std::ops::Drop>::drop", KS,
   "        if self.is_deleted.load(std::sync::atomic::Ordering::Acquire) {\n            let path = &self.tree.tree_config().path;",
   "        if !self.is_deleted.load(std::sync::atomic::Ordering::Acquire) {\n            let path = &self.tree.tree_config().path;")
+
+# ======================================================================== C04
+B("C04-sealed-replay-tombstone-as-insert", "C04", "C04:R-C04.1", REC,
+  """                    lsm_tree::ValueType::Tombstone => {
+                        tree.remove(item.key, batch.seqno);
+                    }""",
+  """                    lsm_tree::ValueType::Tombstone => {
+                        tree.insert(item.key, item.value, batch.seqno);
+                    }""")
+B("C04-active-replay-no-clear", "C04", "C04:R-C04.1:db::Database::recover:replay-cleared", DB,
+  """                        keyspace.tree.clear().ok();
+                    }
+                }""",
+  """                        let _ = keyspace;
+                    }
+                }""")
+B("C04-replay-wrong-seqno", "C04", "C04:R-C04.1:recovery::recover_sealed_memtables:replay-insert-operands", REC,
+  """                    lsm_tree::ValueType::Value => {
+                        tree.insert(item.key, item.value, batch.seqno);
+                    }
+                    lsm_tree::ValueType::Tombstone => {
+                        tree.remove(item.key, batch.seqno);
+                    }
+                    lsm_tree::ValueType::WeakTombstone => {
+                        tree.remove_weak(item.key, batch.seqno);
+                    }
+                    lsm_tree::ValueType::Indirection => {
+                        unreachable!()
+                    }
+                }
+            }
+
+            for keyspace_id in &batch.cleared_keyspaces {
+                let Some(keyspace_name) = db.meta_keyspace.resolve_id(*keyspace_id)? else {""",
+  """                    lsm_tree::ValueType::Value => {
+                        tree.insert(item.key, item.value, db.supervisor.seqno.next());
+                    }
+                    lsm_tree::ValueType::Tombstone => {
+                        tree.remove(item.key, batch.seqno);
+                    }
+                    lsm_tree::ValueType::WeakTombstone => {
+                        tree.remove_weak(item.key, batch.seqno);
+                    }
+                    lsm_tree::ValueType::Indirection => {
+                        unreachable!()
+                    }
+                }
+            }
+
+            for keyspace_id in &batch.cleared_keyspaces {
+                let Some(keyspace_name) = db.meta_keyspace.resolve_id(*keyspace_id)? else {""")
+B("C04-clear-not-journaled-first", "C04", "C04:R-C04.2:keyspace::Keyspace::clear", KS,
+  """        self.tree.clear().inspect_err(|_| {
+            self.is_poisoned.poison();
+        })?;
+
+        self.supervisor.snapshot_tracker.publish(seqno);
+
+        drop(journal_writer);
+
+        Ok(())
+    }
+
+    /// Returns the number of blob bytes""",
+  """        self.supervisor.snapshot_tracker.publish(seqno);
+
+        drop(journal_writer);
+
+        Ok(())
+    }
+
+    /// Returns the number of blob bytes""")
+B("C04-skip-polarity-flipped", "C04", "C04:R-C04.4", REC,
+  "keyspace_lsn.is_some_and(|keyspace_lsn| keyspace_lsn >= wm.lsn);", "keyspace_lsn.is_some_and(|keyspace_lsn| keyspace_lsn <= wm.lsn);")
+B("C04-skip-branches-swapped", "C04", "C04:R-C04.4", REC,
+  "            if should_skip_sealed_memtable {", "            if !should_skip_sealed_memtable {")
+B("C04-reader-drops-clear", "C04", "C04:R-C04.2:<journal::batch_reader::JournalBatchReader as std::iter::Iterator>::next", "src/journal/batch_reader.rs",
+  "                    self.cleared_keyspaces.push(keyspace_id);", "                    let _ = keyspace_id;")
